@@ -140,7 +140,8 @@ def _build_with_raise(case, rec):
     ns = _orig_build(c2, rec)
     raising = set(t['name'] for t in case['tasks'] if t['status'] == 'raise')
     big = set(t['name'] for t in case['tasks'] if t.get('big') and t['kind'] == 'task')
-    if not raising and not big:
+    exc = dict((t['name'], t['exc_args']) for t in case['tasks'] if t.get('exc_args') and t['kind'] == 'task')
+    if not raising and not big and not exc:
         return ns
     gen = ns['task_gen']
 
@@ -157,8 +158,24 @@ def _build_with_raise(case, rec):
             return action(*a, **kw)
         return act
 
+    def exotic(action, kind):
+        # the action fails by raising an exception whose `args` hold more than a message (a lock / plain numbers)
+        import functools
+
+        @functools.wraps(action)
+        def act(*a, **kw):
+            try:
+                return action(*a, **kw)
+            except RuntimeError as e:
+                if kind == 'unpicklable':
+                    raise ToolFailed(str(e), threading.Lock())
+                raise ToolFailed(str(e), 4, ('tool', 'exited'))
+        return act
+
     def task_gen():
         for d in gen():
+            if d.get('basename') in exc and d.get('name') is None and d.get('actions'):
+                d = dict(d, actions=[exotic(d['actions'][0], exc[d['basename']])] + list(d['actions'][1:]))
             if d.get('basename') in raising and d.get('name') is None:
                 d = dict(d, uptodate=[boom])
             if d.get('basename') in big and d.get('name') is None and d.get('actions'):
@@ -182,6 +199,11 @@ def _settle_threads():
 
 
 BIG_OUTPUT = 200000
+
+
+class ToolFailed(Exception):
+    """what a failing python-action of a generated task raises when the case says `exc_args`"""
+
 WATCHDOG = {'serial': 5.0, 'thread': 10.0, 'process': 8.0}
 
 
@@ -372,10 +394,14 @@ def base_case(tasks, sel=None, runner='serial', nproc=0, cont=False, policy=None
             'policy': policy or {'kind': 'seeded', 'seed': 1}}
 
 
-def digraph_tasks(n, bits, reverse=False):
-    ts = [_task('t%d' % i) for i in range(n)]
+META_NAMES = ['q?', 'qa', 'q[a]', 'q[b]']      # legal literal task names; `q?` and `q[a]` also match `qa` as fnmatch patterns
+
+
+def digraph_tasks(n, bits, reverse=False, names=None):
+    names = names or ['t%d' % i for i in range(n)]
+    ts = [_task(names[i]) for i in range(n)]
     for a in range(n):
-        deps = ['t%d' % b for b in range(n) if (bits >> (a * n + b)) & 1]
+        deps = [names[b] for b in range(n) if (bits >> (a * n + b)) & 1]
         ts[a]['task_dep'] = list(reversed(deps)) if reverse else deps
     return ts
 
@@ -400,6 +426,9 @@ def exhaustive_specs(tier, boost):
                 specs.append((n, bits, sel, 'serial', 0, False))
                 specs.append((n, bits, sel, 'thread', 2, False))
             specs.append((n, bits, None, 'thread', 3, False))
+            # the same graphs over task names that contain fnmatch meta characters
+            specs.append((n, bits, None, 'serial', 0, False, True))
+            specs.append((n, bits, None, 'thread', 2, False, True))
             if tier != 'quick' or boost > 1:
                 specs.append((n, bits, None, 'serial', 0, True))
                 specs.append((n, bits, None, 'thread', 2, True))
@@ -414,9 +443,11 @@ def exhaustive_specs(tier, boost):
 
 
 def spec_case(spec):
-    n, bits, sel, runner, nproc, rev = spec
-    c = base_case(digraph_tasks(n, bits, rev), sel, runner, nproc, policy={'kind': 'seeded', 'seed': bits * 7 + n})
-    c['family'] = 'digraph'
+    n, bits, sel, runner, nproc, rev = spec[:6]
+    meta = len(spec) > 6 and spec[6]
+    c = base_case(digraph_tasks(n, bits, rev, META_NAMES[:n] if meta else None), sel, runner, nproc,
+                  policy={'kind': 'seeded', 'seed': bits * 7 + n})
+    c['family'] = 'digraph-metachar-names' if meta else 'digraph'
     return c
 
 
@@ -519,6 +550,37 @@ def inject_calc_backrefs(rng, case):
     return case
 
 
+def rename_metachars(rng, case):
+    """give up to four plain tasks names that contain `?` / `[` `]` (legal literal names), consistently in every
+    reference (dependency lists, getargs, calc results, selection)"""
+    plain = [t['name'] for t in case['tasks'] if t['kind'] == 'task']
+    if not plain:
+        return None
+    k = min(len(plain), len(META_NAMES), rng.choice([2, 3, 4]))
+    old = rng.sample(plain, k)
+    new = rng.sample(META_NAMES, k)
+    m = dict(zip(old, new))
+
+    def r(x):
+        return m.get(x, x)
+    for t in case['tasks']:
+        t['name'] = r(t['name'])
+        for key in ('task_dep', 'setup', 'calc_dep', 'result_dep'):
+            t[key] = [r(x) for x in t[key]]
+        t['getargs'] = [[g[0], r(g[1]), g[2]] for g in t['getargs']]
+        if t['calc_res'] is not None:
+            for key in ('task_dep', 'calc_dep'):
+                t['calc_res'][key] = [r(x) for x in t['calc_res'].get(key, [])]
+    if case.get('sel') is not None:
+        case['sel'] = [r(x) for x in case['sel']]
+    for key in ('injected', 'calc_backrefs'):
+        if case.get(key):
+            case[key] = {a: ([r(x) for x in b] if isinstance(b, list) else r(b) if isinstance(b, str) else b)
+                         for a, b in case[key].items()}
+    case['metachar_names'] = sorted(new)
+    return case
+
+
 def gen_sampled(seed, runner):
     rng = random.Random(seed)
     knobs = dict(n_min=3, n_max=9, runner=runner, p_dual=0.2, p_failed=0.08, p_exc=0.04, p_error=0.04, p_utd=0.15,
@@ -539,6 +601,12 @@ def gen_sampled(seed, runner):
         plain = [t for t in c['tasks'] if t['kind'] == 'task']
         for t in rng.sample(plain, min(len(plain), rng.choice([1, 1, 2]))):
             t['big'] = True
+    if runner == 'process':
+        for t in c['tasks']:
+            if t['kind'] == 'task' and t['outcome'] == 'error' and t.get('how') == 'raise' and rng.random() < 0.6:
+                t['exc_args'] = rng.choice(['unpicklable', 'unpicklable', 'picklable'])
+    if rng.random() < 0.25:
+        rename_metachars(rng, c)
     c['family'] = 'sampled'
     c['seed'] = seed
     return c
@@ -617,6 +685,54 @@ def structured_cases():
                 ts[3]['task_dep'] = ['b']
                 ts[4]['task_dep'] = ['a']
             out.append(named(base_case(ts, sel, 'process', k), 'big-result-in-flight'))
+    # a python-action failing with an exception whose args can not be pickled (the failure travels in the result)
+    for runner, k in (('process', 2), ('process', 3), ('thread', 2), ('serial', 0)):
+        for kind in ('unpicklable', 'picklable'):
+            for cont in (False, True):
+                if runner != 'process' and (kind == 'picklable' or cont):
+                    continue
+                ts = [_task(x) for x in ('ok1', 'bad', 'after')]
+                ts[1].update(outcome='error', how='raise', exc_args=kind)
+                ts[2]['task_dep'] = ['ok1']
+                out.append(named(base_case(ts, None, runner, k, cont=cont), 'exception-args'))
+        ts = [_task('bad')]
+        ts[0].update(outcome='error', how='raise', exc_args='unpicklable')
+        out.append(named(base_case(ts, None, runner, k), 'exception-args'))
+    # task names that contain fnmatch meta characters, named literally in task_dep
+    for runner, k in (('serial', 0), ('thread', 2), ('process', 2)):
+        for shape in ('ring[]', 'qa->q?', 'chain[]', 'q?->qa', 'sub-ring[]', 'calc-delivers[]'):
+            if runner == 'process' and shape not in ('ring[]', 'qa->q?'):
+                continue
+            sel = None
+            if shape == 'ring[]':
+                ts = [_task(x) for x in ('q[a]', 'q[b]')]
+                ts[0]['task_dep'] = ['q[b]']
+                ts[1]['task_dep'] = ['q[a]']
+            elif shape == 'qa->q?':
+                ts = [_task(x) for x in ('q?', 'qa')]
+                ts[1]['task_dep'] = ['q?']
+            elif shape == 'q?->qa':
+                ts = [_task(x) for x in ('qa', 'q?', 'qb')]
+                ts[1]['task_dep'] = ['qa']
+                ts[2]['task_dep'] = ['q?']
+            elif shape == 'chain[]':
+                ts = [_task(x) for x in ('q[a]', 'qa', 'top')]
+                ts[1]['task_dep'] = ['q[a]']
+                ts[2]['task_dep'] = ['qa', 'q[a]']
+                sel = ['top']
+            elif shape == 'sub-ring[]':
+                ts = [runlib._new_task('test', 'group'), runlib._new_task('test:[a]', 'sub', 'test'),
+                      runlib._new_task('test:[b]', 'sub', 'test')]
+                ts[1]['task_dep'] = ['test:[b]']
+                ts[2]['task_dep'] = ['test:[a]']
+                sel = ['test']
+            else:
+                ts = [_task(x) for x in ('c', 'q[a]', 'a')]
+                ts[0]['calc_res'] = {'task_dep': ['q[a]'], 'file_dep': [], 'calc_dep': []}
+                ts[1]['task_dep'] = ['a']
+                ts[2]['calc_dep'] = ['c']
+                sel = ['a']
+            out.append(named(base_case(ts, sel, runner, k), 'metachar-names'))
     # a cyclic error found while / after the workers are started (process mode: the started workers must not stay)
     for k in (2, 3):
         ts = [_task(x) for x in ('x', 'a', 'b')]
@@ -636,6 +752,13 @@ def witness_of(case, obs, failed, py, lean, detail):
     w = runlib.make_witness(case, obs, failed, py, lean, detail)
     w['leak'] = obs.get('leak')
     w['family'] = case.get('family')
+    exo = [(t['name'], t['exc_args']) for t in case['tasks'] if t.get('exc_args')]
+    if exo:
+        w['exception_args'] = exo
+        w['rendered'] = list(w['rendered']) + ['(the failing action of %s raises ToolFailed(msg, <%s>): args %s)'
+                                               % (n, 'threading.Lock' if k == 'unpicklable' else "4, ('tool', 'exited')",
+                                                  'can NOT be pickled' if k == 'unpicklable' else 'can be pickled')
+                                               for n, k in exo]
     big = [t['name'] for t in case['tasks'] if t.get('big')]
     if big:
         w['big_output_tasks'] = big
@@ -715,6 +838,21 @@ def judge(case, obs, a_run, a_c09, st, shrink_left):
     elif a_run.get('accepted'):
         st.count('model:accepted')
     else:
+        if case['runner'] == 'process' and obs['exit'] == 3:
+            # a run of the process runner that an exception in the main process ended: the workers are terminate()d at
+            # an arbitrary point, also between taking a job from the queue and the first event of its action (the
+            # model takes the job and starts the task in one step).  That race does not repeat: the case is run
+            # again (twice at most) and only a run that is rejected every time counts as a divergence.
+            for _ in range(2):
+                o2 = run_case(case)
+                p2, _d2 = monitors_of(case, o2)
+                if not all(p2.get(k, True) for k in KEYS):
+                    break
+                a2 = runlib.ask_model([(case, o2)])[0]
+                if 'error' in a2 or a2.get('accepted') or a2.get('skipped'):
+                    st.count('process_abort_race:accepted_on_rerun')
+                    st.count('model:accepted')
+                    return used
         st.count('model:rejected')
         w = witness_of(case, obs, [], py, lean, detail)
         w['matched'] = a_run.get('matched')
@@ -750,6 +888,11 @@ def count_c09(st, case, obs):
     st.count('err:%s' % obs['err'])
     if any(t.get('big') for t in case['tasks']):
         st.count('has_big_output_task')
+    for t in case['tasks']:
+        if t.get('exc_args'):
+            st.count('exception_args:%s' % t['exc_args'])
+    if any(ch in t['name'] for t in case['tasks'] for ch in '?[') and case.get('family') != 'digraph-metachar-names':
+        st.count('has_metachar_task_name')
     if case.get('calc_backrefs'):
         st.count('calc_backrefs:%s' % case['calc_backrefs']['shape'])
     if any((t.get('calc_res') or {}).get('calc_dep') for t in case['tasks']):
@@ -896,7 +1039,7 @@ def run(ctx, scale=1.0):
     else:
         for st in runlib.fork_map(eval_batch, pbatches, procs=4):
             st.merge_into(ctx)
-    done = sum(v for k, v in ctx.dist.items() if k == 'family:digraph')
+    done = sum(v for k, v in ctx.dist.items() if k in ('family:digraph', 'family:digraph-metachar-names'))
     ctx.extra['exhaustive_small_scope']['cases_run'] = done
     ctx.extra['exhaustive_small_scope']['not_run_budget_exhausted'] = ctx.dist.get('not_run_budget_exhausted', 0)
 
@@ -918,6 +1061,9 @@ def replay(ctx, data):
     case['model'] = runlib.expand(dict(case, tasks=[dict(t, status='run') if t['status'] == 'raise' else t
                                                     for t in case['tasks']]))
     print(runlib.render(case))
+    for t in case['tasks']:
+        if t.get('exc_args'):
+            print('(the failing action of %s raises ToolFailed with %s args)' % (t['name'], t['exc_args']))
     if any(t.get('big') for t in case['tasks']):
         print('(the actions of %s also print %d bytes)' % ([t['name'] for t in case['tasks'] if t.get('big')], BIG_OUTPUT))
     if has_raise(case):
